@@ -228,5 +228,5 @@ def check(repo: Repo, rep: Report) -> None:
             c = calls[0].node
             kw = {k.arg: u(k.value) for k in c.keywords}
             ok = u(c.args[0]) == "string" and kw.get("timespan") == "timespan" and kw.get("lookup") == "lookup" and kw.get("error") == "error" \
-                and all(kw.get(k) == v for k, v in extra.items())
-        rep.ob("M5-forwarding", f, f"{fname} -> parse(string, timespan=, lookup=, error=...)", ok, f"{fname} does not forward its arguments to parse in their roles")
+                and all(kw.get(k) == v for k, v in extra.items()) and kw.get("raise_stopped") == "True"
+        rep.ob("M5-forwarding", f, f"{fname} -> parse(string, timespan=, lookup=, error=...)", ok, f"{fname} does not forward its arguments to parse in their roles (with raise_stopped=True: marbles after the terminal marble are an error, not silently dropped)")
